@@ -21,5 +21,7 @@ set_option maxRecDepth 100000 in
 theorem guard16 : guardOk Gen.l3Block16 Gen.l3Tail16 = true := by decide
 set_option maxRecDepth 100000 in
 theorem guard8 : guardOk Gen.l3Block8 Gen.l3Tail8 = true := by decide
+set_option maxRecDepth 100000 in
+theorem guard32V : guardOk Gen.l3Block32 Gen.l3Tail32V = true := by decide
 
 end AwsVerif.Proofs.C02
